@@ -68,6 +68,8 @@ type FnEnc struct {
 	lastCall     string
 	mapVers      map[string]int    // digest of the map heaps -> version number (pureResult)
 	pureDone     map[string]bool   // postconditions already assumed for a pure application
+	heldPred     string // predicate "this cell is a lock ghost" (see heldCellPred)
+	heldPredDone bool
 	eqState      *State            // state in which == on interface values loads boxed contents
 	topCallKey   string            // key of the last call numbered in the function under contract itself
 	callStates   map[string]*State // "<short name>#<ordinal>" -> state right after that call
